@@ -68,6 +68,7 @@ pub fn run(args: &Args, rep: &mut Report) {
         scfg.tolerate_baseline_diags = true;
         scfg.opt_order = rng.below(12) as u8;
         scfg.lib_walk = rng.chance(1, 2);
+        scfg.short_dev = if rng.chance(1, 4) { Some(rng.next_u64()) } else { None };
         // a device that refuses writes: nothing may depend on a write succeeding (skipped where the documented
         // exception - storing a recomputed FAT32 free count - can apply)
         let trusted = crate::fatck::fsinfo(&img, &g).map_or(false, |(c, _)| c != 0xFFFF_FFFF && u64::from(c) <= g.total_clusters) && img.u8(g.status_off) & 1 == 0;
